@@ -37,7 +37,7 @@ def run(pid, tier, seed):
   chk.add_mc("MC_AutoQG", mcg, "limit completion from 'default' and role indexing: code rule = documented format on all short lists")
   rejects, errors, events = sharded_events(chk, "drive_autoq.py", "-", "Trace_AutoQ", tier, seed, "autoq")
   for e in errors:
-    chk.violation({"clause": "raises"}, e)
+    chk.violation({"clause": e["k"] if e["k"] != "exc" else "raises"}, e)
   for ev, clauses in rejects:
     for cl in clauses:
       chk.violation({"clause": cl, "kind": ev["kind"]}, {k: v for k, v in ev.items() if len(json.dumps(v)) < 1500})
